@@ -6,6 +6,11 @@ from vlib import Check
 def run():
     chk = Check("C12", level="exploration")
     chk.add_model("ContextMC (frame condition, disjoint stacks; 3 tasks)", vlib.model_check("ContextMC", "ContextMC.cfg", timeout=600))
+    chk.add_model("RecycleImpl (thread objects: recycle heaps per stack class, rebind, late interrupts)",
+                  vlib.model_check("RecycleImpl", "RecycleImpl.cfg", timeout=600))
+    for v in ("clear_at_exit_only", "huge_from_large_heap"):
+        rr = vlib.model_check("RecycleImpl", "RecycleImpl_%s.cfg" % v, expect_ok=False, timeout=600)
+        chk.add_model("RecycleImpl/variant %s (must violate)" % v, rr, note="violated: %s" % rr["violated"])
     (binary,) = vlib.build_harness(["ctx_harness"])
     nruns = 64 if chk.thorough() else 16
     nhist = 120 if chk.thorough() else 50
